@@ -37,19 +37,20 @@ class Outcome:
 class Unit:
     registry = []
 
-    def __init__(self, prop, name, targets, body, note=""):
+    def __init__(self, prop, name, targets, body, note="", bounded=None):
         self.prop, self.name, self.targets, self.body, self.note = prop, name, targets, body, note
+        self.bounded = bounded      # None: unbounded proof unit; str: bounded symbolic unit (bound stated)
         self.rewrite_log = []
 
     def __repr__(self):
         return "Unit(%s/%s)" % (self.prop, self.name)
 
 
-def unit(prop, name, targets, note=""):
+def unit(prop, name, targets, note="", bounded=None):
     """Decorator: register a unit.  targets = [(module_name, qualname), ...] functions of /repo
     whose real bodies this unit executes under contract."""
     def deco(f):
-        u = Unit(prop, name, targets, f, note)
+        u = Unit(prop, name, targets, f, note, bounded)
         Unit.registry.append(u)
         f.unit = u
         return f
